@@ -219,3 +219,72 @@ func VerifC15_Subset() {
 	}
 	verif.Cover("end")
 }
+
+// VerifC15_SubsetHealth: health inside the subset layer. The request's
+// criteria match a non-empty subset; hosts are healthy or not in every
+// pattern. A healthy host of the matched subset is returned when one exists;
+// when the subset has no usable host the fallback policy applies (none: no
+// host; any-endpoint: a healthy host of the cluster if there is one;
+// default-subset: a healthy host of the default subset if there is one).
+// Never an unhealthy host, never a host outside the applicable set, and no
+// host only if the applicable sets hold no healthy one (C05 through C15).
+func VerifC15_SubsetHealth() {
+	verif.Replace("math/rand.NewSource", func(int64) rand.Source { return zzAnySource{} })
+	vals := []string{"a", "a", "b"}
+	var hs []types.Host
+	for i := 0; i < 3; i++ {
+		h := &zzMetaHost{meta: api.Metadata{"k1": vals[i]}}
+		h.name, h.healthy, h.weight = zzHostNames[i], verif.Choose("healthy", 2) == 1, 10
+		hs = append(hs, h)
+	}
+	policy := verif.Choose("fallback", 3)
+	dv := []string{"a", "b"}[verif.Choose("default_value", 2)]
+	cfg := &v2.LBSubsetConfig{FallBackPolicy: uint8(policy), SubsetSelectors: [][]string{{"k1"}}, DefaultSubset: map[string]string{"k1": dv}}
+	info := &zzSubInfo{sub: NewLBSubsetInfo(cfg), st: &types.ClusterStats{LBSubSetsFallBack: &zzLBCounter{}, LBSubsetsCreated: &zzSubGauge{}}}
+	crit := []zzCriterion{{"k1", []string{"a", "b"}[verif.Choose("criteria_value", 2)]}}
+	ctx := &zzSubCtx{ctx: variable.NewVariableContext(context.Background())}
+	ctx.crit = &zzCriteria{[]api.MetadataMatchCriterion{&crit[0]}}
+	healthyIn := func(kvs []zzCriterion) int {
+		n := 0
+		for _, h := range hs {
+			if h.Health() && zzHas(h, kvs) {
+				n++
+			}
+		}
+		return n
+	}
+	for variant := 0; variant < 2; variant++ {
+		var lb types.LoadBalancer
+		if variant == 0 {
+			lb = NewSubsetLoadBalancer(info, NewHostSet(hs))
+		} else {
+			lb = NewSubsetLoadBalancerPreIndex(info, NewHostSet(hs))
+		}
+		r := lb.ChooseHost(ctx)
+		if r != nil {
+			verif.Assert(r.Health(), "subset balancer returned an unhealthy host")
+		}
+		switch {
+		case healthyIn(crit) > 0:
+			verif.Assert(r != nil && zzHas(r, crit), "a healthy host of the matched subset exists and must be chosen")
+			verif.Cover("matched")
+		case policy == 0:
+			verif.Assert(r == nil, "fallback none must not return a host")
+		case policy == 1:
+			verif.Assert((r != nil) == (healthyIn(nil) > 0), "matched subset has no usable host: any-endpoint fallback returns a healthy cluster member iff one exists")
+			verif.Cover("fallback-any")
+		default:
+			def := []zzCriterion{{"k1", dv}}
+			verif.Assert((r != nil) == (healthyIn(def) > 0), "matched subset has no usable host: default-subset fallback returns a healthy default-subset host iff one exists")
+			if r != nil {
+				verif.Assert(zzHas(r, def), "default-subset fallback returned a host outside the default subset")
+			}
+			verif.Cover("fallback-default")
+		}
+	}
+	verif.Cover("end")
+}
+
+// VerifC05_SubsetHealth: the same exploration counted for C05 (a healthy
+// member is returned whenever the applicable host set has one).
+func VerifC05_SubsetHealth() { VerifC15_SubsetHealth() }
